@@ -51,7 +51,7 @@ func TestCheck(t *testing.T) {
 		}
 	}()
 	ctx := context.Background()
-	n := int64(cfg.Pick(1000, 2500))
+	n := int64(cfg.Pick(1000, 10000))
 	rep.Cases(n, func(idx int64, rng *mon.Rand) {
 		if idx%5 == 4 {
 			chainCase(ctx, rep, rng)
